@@ -7,6 +7,7 @@ mod gen_auth;
 mod gen_cat;
 mod gen_grp;
 mod harness;
+mod jrnl;
 mod harness_auth;
 mod harness_cat;
 mod harness_stats;
